@@ -848,4 +848,64 @@ example : componentsFromSets (MG.fromEdges [] [] [(0, 2), (1, 2)]) [[{ name := 0
 example : componentsFromSets (MG.fromEdges [] [] [(0, 1)]) [[{ name := 0 }], [{ name := 1 }]] =
     [[{ name := 0 }, { name := 1 }]] := by decide
 
+/-! ### the hypotheses of the semantic theorems are satisfiable: a concrete compatible functional SCM on X -> Y -/
+
+def chain : MG Name := MG.fromEdges [] [(0, 1)] []
+def chainModel : Fscm.Model where
+  order := [0, 1]
+  noise := [[1/2, 1/2], [1/2, 1/2]]
+  pa := fun v => if v = 1 then [0] else []
+  lat := fun v => [v]
+  f := fun _ pa lat => (pa.sum + lat.sum) % 2
+
+theorem chainModel_compatible : Fscm.Compatible chainModel chain where
+  perm := by
+    have : chain.nodes = [0, 1] := by decide
+    rw [this]; exact List.Perm.refl _
+  nodup := by decide
+  pa_sub := by
+    intro v p hp
+    simp only [chainModel] at hp
+    split at hp
+    · rename_i hv; subst hv
+      simp only [List.mem_singleton] at hp; subst hp; decide
+    · cases hp
+  topo := by
+    intro l₁ v l₂ h p hp
+    simp only [chainModel] at h hp
+    match l₁, h with
+    | [], h =>
+      simp only [List.nil_append, List.cons.injEq] at h
+      obtain ⟨rfl, _⟩ := h
+      simp at hp
+    | [a], h =>
+      simp only [List.cons_append, List.nil_append, List.cons.injEq] at h
+      obtain ⟨rfl, rfl, _⟩ := h
+      simpa using hp
+    | a :: b :: rest, h =>
+      simp only [List.cons_append, List.cons.injEq] at h
+      obtain ⟨_, _, h3⟩ := h
+      cases rest <;> simp at h3
+  lat_bi := by
+    intro v w hvw h
+    simp only [chainModel, List.mem_singleton] at h
+    obtain ⟨j, rfl, rfl⟩ := h
+    exact absurd rfl hvw
+
+example : minimize chain { name := 0, ivs := [⟨1, true⟩] } = .ok { name := 0 } := by decide
+/-- `X_{y'}` and `X` are the same random variable in the chain model -/
+example (ν : Fscm.BaseValues) :
+    Fscm.SameRV chainModel 0 (Fscm.worldOf ν [⟨1, true⟩]) 0 (Fscm.worldOf ν []) :=
+  minimize_same_rv chain { name := 0, ivs := [⟨1, true⟩] } { name := 0 } (by decide) chainModel
+    chainModel_compatible ν
+
+/-- `Y_x = y ∧ Y_x = y'` has probability 0 in the chain model (SIMPLIFY answers `None`) -/
+example (ν : Fscm.BaseValues) (hν : ν.Distinct) :
+    probEventOpt chainModel ν [({ name := 1, ivs := [⟨0, false⟩] }, some ⟨1, false⟩),
+      ({ name := 1, ivs := [⟨0, false⟩] }, some ⟨1, true⟩)] = 0 := by
+  refine simplify_none_zero_partial chain _ (by decide) (by decide) ?_ chainModel chainModel_compatible ν hν
+  intro p hp i hi
+  simp only [List.mem_cons, List.not_mem_nil, or_false] at hp
+  rcases hp with rfl | rfl <;> simp only [Option.some.injEq] at hi <;> subst hi <;> rfl
+
 end Y0.Ctf
